@@ -289,6 +289,10 @@ def make_case(slot, rnd, variant=0, frame=69888, ia=32):
     regs[SP] = r16(rnd)
     if variant % len(EDGE_W) in (1, 2):
         regs[A] = 0xFF if variant % len(EDGE_W) == 1 else 0x00      # with the 0xFFFF / 0x3FFF immediates: A:n = 0xFFFF after IN A,(0xFF)
+    # the stack pointer at the ROM/RAM/64K edges in fixed variants of every slot (pushes and pops split over the edge)
+    sp_edge = {3: 0x4001, 4: 0x4000, 5: 0x0001, 6: 0xFFFF}.get(variant % 12)
+    if sp_edge is not None:
+        regs[SP] = sp_edge
     regs[PC] = pc
     regs[T] = rnd.choice(TS48) if frame == 69888 else rnd.choice(TS128 if frame == 70908 else TS48[:11])
     regs[IFF] = rnd.randrange(2)
@@ -296,14 +300,70 @@ def make_case(slot, rnd, variant=0, frame=69888, ia=32):
     regs[HALT] = 0
     regs[MEMPTR] = rnd.randrange(65536)
     # block instructions: make BC small often so that both outcomes are exercised
-    if len(lead) > 1 and lead[0] == 0xED and lead[1] >= 0xA0 and rnd.random() < 0.6:
-        bc = rnd.choice((0, 1, 2, 0x100, 0x101, 0x8000, 0x8100, 0x7F00, 0xFF00))
-        regs[B], regs[C] = bc >> 8, bc & 255
+    if len(lead) > 1 and lead[0] == 0xED and lead[1] >= 0xA0:
+        # the counter about to run out / just wrapped in fixed variants (the last iteration sets the flags differently)
+        bc = {1: 1, 2: 2, 3: 0, 7: 0x0100, 8: 0x01FF}.get(variant % 12)
+        if bc is None and rnd.random() < 0.6:
+            bc = rnd.choice((0, 1, 2, 0x100, 0x101, 0x8000, 0x8100, 0x7F00, 0xFF00))
+        if bc is not None:
+            regs[B], regs[C] = bc >> 8, bc & 255
     if lead[0] == 0x10 and rnd.random() < 0.5:
         regs[B] = rnd.choice((0, 1, 2))
     ov = [[(pc + i) % 65536, b] for i, b in enumerate(ins)]
+    if variant % 2:
+        # memory operands with byte-edge values (0x00, 0x7F, 0x80, 0xFF ...) instead of the background pattern: what (HL),
+        # (BC), (DE) and the stack top hold decides carries and overflows
+        code = {a for a, _ in ov}
+        for ptr in (regs[L] + 256 * regs[H], regs[C] + 256 * regs[B], regs[E] + 256 * regs[D], regs[SP]):
+            for k in (0, 1):
+                a = (ptr + k) % 65536
+                if a not in code and rnd.random() < 0.6:
+                    ov.append([a, rnd.choice(B8)])
+                    code.add(a)
     inv = rnd.choice((-1, r8(rnd), r8(rnd)))
     return {'key': '%s/%d' % (name, variant), 'r': regs, 'ov': ov, 'inv': inv, 'frame': frame, 'ia': ia}
+
+
+E16 = (0x0000, 0x0001, 0x0FFF, 0x1000, 0x7FFF, 0x8000, 0xFFFF)
+ALU16 = ('M09', 'M19', 'M29', 'M39', 'ED4A', 'ED5A', 'ED6A', 'ED7A', 'ED42', 'ED52', 'ED62', 'ED72',
+         'DD09', 'DD19', 'DD29', 'DD39', 'FD09', 'FD19', 'FD29', 'FD39')
+BLOCKCP = ('EDA1', 'EDA9', 'EDB1', 'EDB9')
+
+
+def edge_cases(seed):
+    """A deterministic sweep that random operands reach only by luck: the 16-bit adders over every pair of edge operands
+    x carry in (signed overflow and half carry sit exactly at 0x7FFF/0x8000/0x0FFF/0x1000, and the carry moves them by one),
+    and the block compares over every pair of byte edges x counter 0/1/2 (the last iteration decides P/V)."""
+    rnd = random.Random(seed)
+    by_name = {n: (lead, n) for lead, n in slots()}
+    cases = []
+    for n in ALU16:
+        for hl in E16:
+            for rr in E16:
+                for cy in (0, 1):
+                    c = make_case(by_name[n], rnd, 0)
+                    r = c['r']
+                    for hi in (H, IXh, IYh):
+                        r[hi], r[hi + 1] = hl >> 8, hl & 255
+                    for hi in (B, D):
+                        r[hi], r[hi + 1] = rr >> 8, rr & 255
+                    r[SP] = rr
+                    r[F] = (r[F] & 0xFE) | cy
+                    c['key'] = '%s/edge:%04X:%04X:%d' % (n, hl, rr, cy)
+                    cases.append(c)
+    for n in BLOCKCP:
+        for a in B8:
+            for m in B8:
+                for bc in (0, 1, 2):
+                    c = make_case(by_name[n], rnd, 0)
+                    r = c['r']
+                    r[A] = a
+                    r[H], r[L] = 0x81, 0x00
+                    r[B], r[C] = bc >> 8, bc & 255
+                    c['ov'] = [x for x in c['ov'] if x[0] != 0x8100] + [[0x8100, m]]
+                    c['key'] = '%s/edge:%02X:%02X:%d' % (n, a, m, bc)
+                    cases.append(c)
+    return run_cases(cases)
 
 
 def run_cases(cases):
